@@ -138,6 +138,38 @@ def _impl_line_names_trait(fn_name, trait):
     return re.search(r"\bimpl\b[^{]*\b%s\b[^{]*\bfor\b" % re.escape(trait), _IMPL_LINE_CACHE[key]) is not None
 
 
+_SRC_CONSTS = None
+
+
+def _source_const_literal(name):
+    """value of `const NAME: T = <byte string | integer literal>;` found exactly once in /repo's sources (constants whose MIR body
+    the dump does not contain because rustc evaluated them)"""
+    global _SRC_CONSTS
+    if _SRC_CONSTS is None:
+        _SRC_CONSTS = {}
+        try:
+            from common import REPO
+            import glob
+            for path in glob.glob(os.path.join(REPO, "crates", "*", "src", "**", "*.rs"), recursive=True):
+                for m in re.finditer(r"\bconst\s+([A-Z][A-Z0-9_]*)\s*:\s*((?:[^=;\[]|\[[^\]]*\])+?)\s*=\s*(b\"(?:[^\"\\]|\\.)*\"|[0-9][0-9_]*(?:_?[ui](?:8|16|32|64|128|size))?)\s*;", open(path).read()):
+                    _SRC_CONSTS.setdefault(m.group(1), []).append((m.group(2), m.group(3)))
+        except Exception:  # noqa
+            pass
+    hits = _SRC_CONSTS.get(name, [])
+    if len(hits) != 1:
+        return None
+    ty, lit = hits[0]
+    if lit.startswith('b"'):
+        raw = bytes(lit[2:-1], "utf-8").decode("unicode_escape").encode("latin-1")
+        seq = Seq([BV(z3.BitVecVal(b, 8)) for b in raw], "array")
+        return Ref(Cell(seq)) if ty.strip().startswith("&") else seq
+    mm = re.match(r"^([0-9_]+?)_?([ui](?:8|16|32|64|128|size))?$", lit)
+    t = mm.group(2) or ty.strip()
+    if t in INT_TYPES:
+        return bv_const(int(mm.group(1).replace("_", "")), t)
+    return None
+
+
 STD_TYPE_NAMES = {"Option", "Result", "Vec", "String", "str", "HashMap", "HashSet", "BTreeMap", "Box", "Rc", "Arc", "Duration", "Instant", "Ipv4Addr", "Ipv6Addr", "IpAddr",
                   "Iterator", "slice", "Cell", "RefCell", "Mutex", "RwLock", "char", "u8", "u16", "u32", "u64", "u128", "usize", "i8", "i16", "i32", "i64", "i128", "isize"}
 
@@ -160,7 +192,7 @@ class Exec:
         self.max_paths = max_paths
         self.timeout_s = timeout_s
         self.solver = z3.Solver()
-        self.solver.set("timeout", 20000)
+        self.solver.set("timeout", int(os.environ.get("VERIF_Z3_TIMEOUT_MS", "60000")))
         self.queries = 0
         self.solver_time = 0.0
         self.stmt_cache = {}
@@ -580,6 +612,9 @@ class Exec:
             if m.group(2) == "MAX":
                 return bv_const((1 << (w - 1)) - 1 if sg else (1 << w) - 1, m.group(1))
             return bv_const(-(1 << (w - 1)) if sg else 0, m.group(1))
+        m = re.match(r"^'\\u\{([0-9a-fA-F]+)\}'$", c)
+        if m:
+            return BV(z3.BitVecVal(int(m.group(1), 16), 32))
         m = re.match(r"^'(\\?.)'$", c)
         if m:
             ch = m.group(1)
@@ -636,6 +671,9 @@ class Exec:
         for fname, f in self.prog.fns.items():
             if fname.split("::")[-1] == tail and f.nparams == 0 and "promoted" not in fname:
                 return self.call_fn(f, [])
+        lit = _source_const_literal(tail)
+        if lit is not None:
+            return lit
         raise Unsupported(f"constant {c}")
 
     def variant_index(self, adt):
@@ -750,7 +788,7 @@ class Exec:
     def cast(self, v, ty, kind):
         ty = ty.strip()
         if kind in ("IntToInt",):
-            w, s = INT_TYPES[ty]
+            w, s = (32, False) if ty == "char" else INT_TYPES[ty]
             if isinstance(v, Bool):
                 return BV(z3.If(v.t, z3.BitVecVal(1, w), z3.BitVecVal(0, w)), s)
             if w == v.width:
@@ -914,6 +952,8 @@ class Exec:
             pos = None
             for i in range(len(call) - 1, -1, -1):
                 c = call[i]
+                if 0 < i < len(call) - 1 and call[i - 1] == "'" and call[i + 1] == "'":
+                    continue                # inside a char literal such as '"' or ')'
                 if c == '"' and (i == 0 or call[i - 1] != "\\"):
                     in_str = not in_str
                 if in_str:
